@@ -6,7 +6,7 @@ snapshot ("keep the maximal contiguous run of processed children that contains
 the head child, float the rest to the next constituent above")."""
 from collections import Counter
 
-from . import common, contracts, gen, model
+from . import probe, common, contracts, gen, model
 
 PROPERTY = 'C05'
 LEVEL = 'exploration'
@@ -157,9 +157,14 @@ def post_boyd(old, result, exc, args, kw):
              x.attrs.get('block_number') if sp else None,
              bool(x.attrs.get('head_block')) if sp else None,
              x.ref.data.get('head'))] += 1
-        lab = T.get_label(x.ref, boyd_split_marking=True,
-                          boyd_split_numbering=True)
-        want = x.label + ('*%d' % x.attrs.get('block_number') if sp else '')
+        try:
+            lab = T.get_label(x.ref, boyd_split_marking=True,
+                              boyd_split_numbering=True)
+        except Exception as exc:
+            _fail('boyd_split-output-label', 'the marking / numbering output '
+                  'options raise on block node %r: %r' % (x.label, exc))
+            return
+        want = x.label + ('*%s' % x.attrs.get('block_number') if sp else '')
         if lab != want:
             _fail('boyd_split-output-label', 'decorated label %r, expected %r'
                   % (lab, want))
@@ -282,18 +287,23 @@ def run_case(ctx, case, rng):
     Cur.ctx, Cur.case, Cur.pre_split = ctx, case, None
     live = common.live_tree(ctx, case['spec'], rng)
     tr = R.transform
+    ntok = len(gen.tokens_of(case['spec']['root']))
     try:
         with common.captured():
-            if case.get('root_attach'):
-                live = tr.root_attach(live)
-            h = case['heads']
-            if h == 'negra':
-                live = tr.negra_mark_heads(live)
-            elif h.startswith('preset:'):
-                live = tr.mark_heads_by_rules(live,
-                                              mark_heads_preset=h[7:])
-            live = tr.boyd_split(live)
-            live = tr.raising(live)
+            with probe.step_budget(3000000 * max(1, ntok // 20) ** 3):
+                if case.get('root_attach'):
+                    live = tr.root_attach(live)
+                h = case['heads']
+                if h == 'negra':
+                    live = tr.negra_mark_heads(live)
+                elif h.startswith('preset:'):
+                    live = tr.mark_heads_by_rules(live,
+                                                  mark_heads_preset=h[7:])
+                live = tr.boyd_split(live)
+                live = tr.raising(live)
+    except probe.StepBudgetExceeded:
+        ctx.fail('C05:does-not-terminate', case, 'step budget exceeded in '
+                 'head marking / boyd_split / raising')
     except Exception:
         pass
     ctx.stratum('heads ' + case['heads'])
